@@ -121,11 +121,61 @@ BOUNDS = {  # history length bound per tier
 }
 
 
+# A scripted environment: with the two alphabet actions and the parity of the step number it emits ALL four
+# combinations of (step type, discount) - (MID, 1), (MID, 0), (LAST, 0), (LAST, 1) - which no shipped single-agent
+# environment does ((MID, 0) needs per-agent discounts behind a min-aggregating MultiToSingleWrapper, (LAST, 1) is
+# LevelBasedForaging's truncation).  "terminated iff discount == 0" and "truncated iff LAST" are decided on it.
+STUBS: List[Tuple[str, str]] = [("scripted-steptype-x-discount", "SCRIPTED()")]
+_SCRIPTED = None
+
+
+def scripted_env_class() -> Any:
+    global _SCRIPTED
+    if _SCRIPTED is not None:
+        return _SCRIPTED
+    import chex
+    import jax.numpy as jnp
+    from jumanji import specs
+    from jumanji.env import Environment
+    from jumanji.types import StepType, TimeStep, restart
+
+    @chex.dataclass
+    class _S:
+        key: Any
+        step_count: Any
+
+    class Scripted(Environment):
+        def reset(self, key: Any) -> Any:
+            st = _S(key=key, step_count=jnp.zeros((), jnp.int32))
+            return st, restart(observation=st.step_count)
+
+        def step(self, state: Any, action: Any) -> Any:
+            n = state.step_count + 1
+            idx = jnp.asarray(action, jnp.int32) + 2 * ((n - 1) % 2)
+            step_type = jnp.where(idx < 2, StepType.MID, StepType.LAST).astype(jnp.int8)
+            discount = jnp.asarray([1.0, 0.0, 0.0, 1.0], jnp.float32)[idx]
+            st = _S(key=state.key, step_count=n)
+            ts = TimeStep(step_type=step_type, reward=n.astype(jnp.float32), discount=discount, observation=n, extras={})
+            return st, ts
+
+        @property
+        def observation_spec(self) -> Any:
+            return specs.BoundedArray((), jnp.int32, 0, 1000, "step_count")
+
+        @property
+        def action_spec(self) -> Any:
+            return specs.DiscreteArray(2, name="action")
+
+    _SCRIPTED = Scripted
+    return Scripted
+
+
 def namespace() -> Dict[str, Any]:
     ns = dict(catalog.namespace())
     from jumanji.wrappers import MultiToSingleWrapper
 
     ns["MTS"] = MultiToSingleWrapper
+    ns["SCRIPTED"] = scripted_env_class()
     return ns
 
 
@@ -724,30 +774,34 @@ def _norm(x: Any) -> Any:
 # adapter construction / restoration
 # ---------------------------------------------------------------------------------------------
 class Restorable:
-    """One adapter object reused across histories: `_key` and `_state` are put back to what the
-    constructor left; any other instance attribute that changes makes the reuse unsound."""
+    """One adapter object reused across histories: after each history every instance attribute is put back to what
+    the constructor left (the same objects; mutable containers as deep copies taken at construction; attributes
+    that did not exist are removed), so the next history starts from a freshly constructed adapter's state even
+    if the adapter keeps more state than `_key` / `_state`.  A few histories per configuration are additionally
+    run on genuinely new adapter objects (run_config)."""
 
     def __init__(self, adapter: Any):
-        self.adapter = adapter
-        self.key0 = np.array(adapter._key, copy=True)
-        self.has_state = "_state" in vars(adapter)
-        self.state0 = vars(adapter).get("_state")
-        self.other = self._snapshot()
+        import copy
 
-    def _snapshot(self) -> Dict[str, int]:
-        return {k: id(v) for k, v in vars(self.adapter).items() if k not in ("_key", "_state")}
+        self.adapter = adapter
+        self.attrs = dict(vars(adapter))
+        self.key0 = np.array(adapter._key, copy=True)
+        self.copies = {k: copy.deepcopy(v) for k, v in self.attrs.items() if isinstance(v, (list, dict, set, bytearray))}
 
     def restore(self) -> Optional[str]:
-        now = self._snapshot()
-        if now != self.other:
-            changed = sorted(set(now) ^ set(self.other)) + [k for k in now if k in self.other and now[k] != self.other[k]]
-            return f"adapter attributes other than _key/_state changed during a history: {changed}"
+        import copy
+
         a = self.adapter
+        for k in list(vars(a)):
+            if k not in self.attrs:
+                delattr(a, k)
+        for k, v in self.attrs.items():
+            if k in self.copies:
+                if vars(a).get(k) != self.copies[k]:
+                    setattr(a, k, copy.deepcopy(self.copies[k]))
+            elif vars(a).get(k, None) is not v:
+                setattr(a, k, v)
         a._key = jnp.asarray(self.key0)
-        if self.has_state:
-            a._state = self.state0
-        else:
-            vars(a).pop("_state", None)
         return None
 
 
@@ -777,7 +831,7 @@ def _rotate(items: List[Any], seed: int, n: int) -> List[Any]:
 def run_config(family: str, index: int, tier: str, seed: int, model: str = "") -> Dict[str, Any]:
     del model  # only there so that a crashed worker is reported under a readable name
     t0 = time.time()
-    model, ctor = CONFIGS[family][index]
+    model, ctor = STUBS[index] if family == "_scripted" else CONFIGS[family][index]
     env = make_env(ctor)
     ck = Checker(family, model, ctor, env)
     b = BOUNDS[tier]
